@@ -292,3 +292,71 @@ def c06_r5(ctx):
                      '%s emits a result stamped with the stored value `%s` at the end of an iteration but never releases on the Watermark '
                      'edge: watermarks beyond that stamp have already been forwarded, so the result violates the watermark contract'
                      % (short(f), end_stamped[0][1]), None)
+
+
+BUILTIN_COMBINERS = ('group_by_sum', 'group_by_avg', 'group_by_count', 'group_by_min_element', 'group_by_max_element',
+                     'group_by_reduce', 'reduce', 'reduce_assoc', 'collect_count', 'max', 'max_by_key', 'max_by', 'min',
+                     'min_by_key', 'min_by', 'sum')
+
+
+def _has_arg(term, n):
+    if isinstance(term, tuple):
+        if len(term) >= 2 and term[0] == 'arg' and term[1] == n:
+            return True
+        return any(_has_arg(x, n) for x in term)
+    return False
+
+
+@rule('C07', 'R6', 'built-in combiners fold into their accumulator: every write to an accumulator component reads that accumulator or is guarded by a test of it')
+def c07_r6(ctx):
+    """sum / count / avg / min / max / reduce are `acc = g(acc, x)`. A write `acc.c = v` where v does not mention acc and whose path
+    condition does not look at acc forgets every earlier element (or partial): the result is not the fold of the input. The rule is
+    a data-dependence check, not an evaluation: it does not decide that g is the right function."""
+    facts = ctx.facts
+    n = 0
+    for g in facts.lib_fns():
+        if g.kind != 'closure' or g.argc < 3 or len(g.locals) < 3 or not g.locals[2]['ty'].startswith('&mut'):
+            continue
+        par = (g.parent or '').rsplit('::', 1)[-1]
+        root = (g.root or '').rsplit('::', 1)[-1]
+        if par not in BUILTIN_COMBINERS and root not in BUILTIN_COMBINERS:
+            continue
+        if '::stream::' not in g.path:
+            continue
+        n += 1
+        s2 = q.sym(facts, g)
+        accname = render(strip(s2.operand(['c', [2]])))
+        writes = []
+        for bi, blk in enumerate(g.blocks):
+            for st in blk['s']:
+                if st['k'] != 'assign':
+                    continue
+                try:
+                    pl = s2.place(st['lhs'])
+                except Exception:
+                    continue
+                if not _has_arg(pl, 2) or (len(st['lhs']) == 1):
+                    continue
+                writes.append((bi, st, pl, s2.rvalue(st['rv'])))
+        inplace = [t for _, t in g.calls() if t['args'] and _has_arg(s2.operand(t['args'][0]), 2)
+                   and (t['callee'].get('path') or '').rsplit('::', 1)[-1] in ('add_assign', 'sub_assign', 'mul_assign', 'extend', 'push', 'insert')]
+        ctx.inst('%s' % g.path.replace('renoir::operator::', ''), {'accumulator': g.locals[2]['ty'][:60],
+                 'writes': [(render(strip(pl)), render(strip(rv))[:60]) for _, _, pl, rv in writes], 'in-place updates': len(inplace)})
+        if not writes and not inplace:
+            ctx.viol('%s|no-accumulation' % g.path, g.at, 'the combiner never updates its accumulator', None)
+        for bi, st, pl, rv in writes:
+            if _has_arg(rv, 2):
+                continue
+            # phi values: look through the definitions that merge into the written value
+            dnf = q.cond_of_block(facts, g, bi)
+            if not dnf:
+                continue     # only reachable through an unwind edge (drop-and-replace cleanup copy of the same assignment)
+            guarded = all(any(accname in (str(a[1]) + str(a[2] if len(a) > 2 else '')) for a in c) for c in dnf)
+            if guarded:
+                continue
+            ctx.viol('%s|accumulator-overwritten|%s' % (g.path, render(strip(pl))), st['at'],
+                     '`%s = %s` in the built-in combiner of %s overwrites the accumulator with a value that does not depend on it, on a path '
+                     'that never looked at it (conditions: %s): everything folded so far is forgotten'
+                     % (render(strip(pl)), render(strip(rv))[:60], par if par in BUILTIN_COMBINERS else root, show_dnf(dnf)), None)
+    if n == 0:
+        raise AnchorMissing('no built-in combiner closure found')
